@@ -216,6 +216,8 @@ type cacheBucket struct {
 func (b cacheBucket) Get(key []byte) []byte {
 	if val := b.mb.Get(key); val != nil {
 		return val
+	} else if _, deleted := b.mb.db.dels[b.mb.name][string(key)]; deleted {
+		return nil
 	}
 	return b.db.Get(key)
 }
